@@ -13,9 +13,11 @@ Two observation channels, both without touching /repo:
 
 A snapshot of all counters is appended to a JSON-lines file every ``interval`` seconds (SIGALRM handler, runs
 between two byte codes of the analysing thread) so that a child that has to be killed still leaves its counter
-time series behind.  If ``limits`` is given the same handler compares the counters with their envelopes and
-ends the child (``os._exit(ABORT_CODE)``) once one is exceeded: a run-away analysis then costs seconds, not
-the whole watchdog.  Wall-clock time is recorded in the snapshots and never decides anything.
+time series behind.  If ``limits`` is given every increment is compared with the counter's envelope and the child
+is ended (``os._exit(ABORT_CODE)`` after a last snapshot) by the FIRST counter that crosses its envelope: a run-away
+analysis then costs seconds, not the whole watchdog, and - the comparison being synchronous with the analysis, not
+with a clock - the counter that is reported is a deterministic function of the analysed program.  Wall-clock
+time is recorded in the snapshots and never decides anything.
 """
 import json
 import os
@@ -124,12 +126,16 @@ class WorkCount:
         self.snapshots = 0
         self._sysmon = []          # (name, [count])
 
-    def inc(self, k, n=1):
-        self.c[k] = self.c.get(k, 0) + n
-
-    def mx(self, k, v):
-        if v > self.c.get(k, 0):
-            self.c[k] = v
+    def abort(self, k, v):
+        """Counter k crossed its envelope: leave the witness behind and end the child."""
+        lim = (self.limits or {}).get(k)
+        self.aborted = (k, v, lim)
+        self.dump(note={"abort": "envelope", "counter": k, "value": v, "limit": lim, "evals": self.evals[:4]})
+        try:
+            sys.stdout.flush(); sys.stderr.flush()
+        except Exception:
+            pass
+        os._exit(ABORT_CODE)
 
     def snapshot(self):
         d = dict(self.c)
@@ -156,25 +162,7 @@ class WorkCount:
         except OSError:
             pass
 
-    def over_limit(self):
-        if not self.limits:
-            return None
-        snap = self.snapshot()
-        for k, lim in self.limits.items():
-            if snap.get(k, 0) > lim:
-                return k, snap.get(k, 0), lim
-        return None
-
     def _on_alarm(self, signo, frame):
-        over = self.over_limit()
-        if over is not None:
-            self.aborted = over
-            self.dump(note={"abort": "envelope", "counter": over[0], "value": over[1], "limit": over[2]})
-            try:
-                sys.stdout.flush(); sys.stderr.flush()
-            except Exception:
-                pass
-            os._exit(ABORT_CODE)
         self.dump()
 
     def start_timer(self, interval):
@@ -265,8 +253,9 @@ def _install_sysmon(wc):
     code_group = {}
     boxes = {}
     n = 0
+    lim = wc.limits or {}
     for gname, prefixes in SYSMON_GROUPS:
-        box = [0]
+        box = [0, lim.get(gname, float("inf")), gname]
         boxes[gname] = box
         wc._sysmon.append((gname, box))
         for mname, mod in list(sys.modules.items()):
@@ -284,6 +273,9 @@ def _install_sysmon(wc):
         b = code_group.get(code)
         if b is not None:
             b[0] += 1
+            if b[0] > b[1]:
+                b[1] = float("inf")
+                wc.abort(b[2], b[0])
 
     mon.register_callback(tool, mon.events.PY_START, on_start)
     wc.c["sysmon_code_objects"] = n
@@ -296,6 +288,20 @@ def install(dump_path=None, interval=2.0, limits=None, sysmon=True):
     wc.dump_path = dump_path
     wc.limits = dict(limits) if limits else None
     c = wc.c
+    lim = wc.limits or {}
+    INF = float("inf")
+
+    def inc(k, n=1):
+        v = c.get(k, 0) + n
+        c[k] = v
+        if v > lim.get(k, INF):
+            wc.abort(k, v)
+
+    def mx(k, v):
+        if v > c.get(k, 0):
+            c[k] = v
+            if v > lim.get(k, INF):
+                wc.abort(k, v)
 
     from lian.util import util as U
     from lian.util.loader import Loader
@@ -322,13 +328,13 @@ def install(dump_path=None, interval=2.0, limits=None, sysmon=True):
     def ws_run(self):
         r = o_ws_run(self)
         try:
-            c["prep_files"] = c.get("prep_files", 0) + len(r)
+            inc("prep_files", len(r))
         except Exception:
             pass
         return r
 
     def copytree(self, src, dst_path):
-        c["prep_copy_calls"] = c.get("prep_copy_calls", 0) + 1
+        inc("prep_copy_calls", 1)
         return o_copy(self, src, dst_path)
 
     PR.WorkspaceBuilder.run = ws_run
@@ -341,8 +347,8 @@ def install(dump_path=None, interval=2.0, limits=None, sysmon=True):
         try:
             ext = bool(getattr(unit_info, "is_extern", False))
             k = "gir_stmts_extern" if ext else "gir_stmts"
-            c[k] = c.get(k, 0) + (len(flatten_nodes) if flatten_nodes else 0)
-            c["gir_units"] = c.get("gir_units", 0) + 1
+            inc(k, (len(flatten_nodes) if flatten_nodes else 0))
+            inc("gir_units", 1)
         except Exception:
             pass
         return o_add_unit(self, unit_info, flatten_nodes)
@@ -362,55 +368,53 @@ def install(dump_path=None, interval=2.0, limits=None, sysmon=True):
     def p2_init(self, frame, frame_stack, *a, **k):
         r = o_p2_init(self, frame, frame_stack, *a, **k)
         if ph(self) == "p2":
-            c["p2_frame_inits"] = c.get("p2_frame_inits", 0) + 1
+            inc("p2_frame_inits", 1)
             if r is not None:
-                c["p2_frames"] = c.get("p2_frames", 0) + 1
+                inc("p2_frames", 1)
         return r
 
     def p3_init(self, frame, frame_stack, global_space):
         r = o_p3_init(self, frame, frame_stack, global_space)
         if not getattr(frame, "is_meta_frame", False):
-            c["p3_frame_inits"] = c.get("p3_frame_inits", 0) + 1
+            inc("p3_frame_inits", 1)
             if r is not None:
-                c["p3_frames"] = c.get("p3_frames", 0) + 1
+                inc("p3_frames", 1)
                 try:
                     d = len(frame_stack)
-                    if d > c.get("p3_max_stack", 0):
-                        c["p3_max_stack"] = d
+                    mx("p3_max_stack", d)
                     L = len(frame.call_path)
-                    if L > c.get("p3_max_path_len", 0):
-                        c["p3_max_path_len"] = L
+                    mx("p3_max_path_len", L)
                 except Exception:
                     pass
         return r
 
     def compute_stmt_states(self, stmt_id, stmt, frame):
         k = "stmt_transfers_" + ph(self)
-        c[k] = c.get(k, 0) + 1
+        inc(k, 1)
         return o_compute(self, stmt_id, stmt, frame)
 
     def analyze_reachable_symbols(self, stmt_id, stmt, frame):
         k = "reach_symbols_" + ph(self)
-        c[k] = c.get(k, 0) + 1
+        inc(k, 1)
         return o_reach(self, stmt_id, stmt, frame)
 
     def analyze_stmts(self, frame):
         k = "analyze_stmts_" + ph(self)
-        c[k] = c.get(k, 0) + 1
+        inc(k, 1)
         return o_analyze_stmts(self, frame)
 
     def analyze_method(self, method_id):
-        c["p2_methods"] = c.get("p2_methods", 0) + 1
+        inc("p2_methods", 1)
         return o_analyze_method(self, method_id)
 
     def p2_run(self):
-        c["p2_runs"] = c.get("p2_runs", 0) + 1
+        inc("p2_runs", 1)
         return o_p2_run(self)
 
     def p3_run(self):
-        c["p3_runs"] = c.get("p3_runs", 0) + 1
+        inc("p3_runs", 1)
         try:
-            c["entry_points"] = c.get("entry_points", 0) + len(list(self.loader.get_entry_points()))
+            inc("entry_points", len(list(self.loader.get_entry_points())))
         except Exception:
             pass
         return o_p3_run(self)
@@ -432,23 +436,23 @@ def install(dump_path=None, interval=2.0, limits=None, sysmon=True):
     o_p2_target = SS.StmtStates.compute_target_method_states
 
     def ss_run(self, stmt_id, stmt, status, in_states, used):
-        c["handler_runs"] = c.get("handler_runs", 0) + 1
+        inc("handler_runs", 1)
         return o_ss_run(self, stmt_id, stmt, status, in_states, used)
 
     def two(self, stmt, state1, state2, defined_symbol):
-        c["fold_calls"] = c.get("fold_calls", 0) + 1
+        inc("fold_calls", 1)
         return o_two(self, stmt, state1, state2, defined_symbol)
 
     def create(self, *a, **k):
-        c["states_created"] = c.get("states_created", 0) + 1
+        inc("states_created", 1)
         return o_create(self, *a, **k)
 
     def p3_target(self, *a, **k):
-        c["call_resolutions_p3"] = c.get("call_resolutions_p3", 0) + 1
+        inc("call_resolutions_p3", 1)
         return o_p3_target(self, *a, **k)
 
     def p2_target(self, *a, **k):
-        c["call_resolutions_p2"] = c.get("call_resolutions_p2", 0) + 1
+        inc("call_resolutions_p2", 1)
         return o_p2_target(self, *a, **k)
 
     SS.StmtStates.run = ss_run
@@ -460,14 +464,12 @@ def install(dump_path=None, interval=2.0, limits=None, sysmon=True):
     o_eval = U.strict_eval
 
     def strict_eval(content):
-        c["strict_eval_calls"] = c.get("strict_eval_calls", 0) + 1
+        inc("strict_eval_calls", 1)
         n = len(content) if isinstance(content, (str, bytes)) else 0
-        c["strict_eval_bytes"] = c.get("strict_eval_bytes", 0) + n
-        if n > c.get("strict_eval_max_bytes", 0):
-            c["strict_eval_max_bytes"] = n
+        inc("strict_eval_bytes", n)
+        mx("strict_eval_max_bytes", n)
         pb, op = predict_bits(content) if isinstance(content, str) else (-1, "")
-        if pb > c.get("strict_eval_max_predicted_bits", 0):
-            c["strict_eval_max_predicted_bits"] = pb
+        mx("strict_eval_max_predicted_bits", pb)
         big = pb > 100000
         rec = None
         if big:
@@ -488,12 +490,11 @@ def install(dump_path=None, interval=2.0, limits=None, sysmon=True):
             raise
         wc.eval_pending = None
         rb = _bits(v)
-        if rb > c.get("strict_eval_max_result_bits", 0):
-            c["strict_eval_max_result_bits"] = rb
         if rec is not None:
             rec["evaluated"] = True
             rec["result_bits"] = rb
             rec["wall_s"] = round(time.time() - t, 3)
+        mx("strict_eval_max_result_bits", rb)
         return v
 
     U.strict_eval = strict_eval
@@ -502,7 +503,7 @@ def install(dump_path=None, interval=2.0, limits=None, sysmon=True):
     o_space_add = CS.SymbolStateSpace.add
 
     def space_add(self, item):
-        c["space_adds"] = c.get("space_adds", 0) + 1
+        inc("space_adds", 1)
         return o_space_add(self, item)
 
     CS.SymbolStateSpace.add = space_add
@@ -510,7 +511,7 @@ def install(dump_path=None, interval=2.0, limits=None, sysmon=True):
     o_sfg_add = CS.StateFlowGraph.add_edge
 
     def sfg_add(self, *a, **k):
-        c["sfg_add_edge_calls"] = c.get("sfg_add_edge_calls", 0) + 1
+        inc("sfg_add_edge_calls", 1)
         return o_sfg_add(self, *a, **k)
 
     CS.StateFlowGraph.add_edge = sfg_add
@@ -522,9 +523,9 @@ def install(dump_path=None, interval=2.0, limits=None, sysmon=True):
     def save_sfg(self, method_id, graph):
         try:
             g = graph.graph
-            c["sfg_nodes"] = c.get("sfg_nodes", 0) + g.number_of_nodes()
-            c["sfg_edges"] = c.get("sfg_edges", 0) + g.number_of_edges()
-            c["sfg_saved"] = c.get("sfg_saved", 0) + 1
+            inc("sfg_nodes", g.number_of_nodes())
+            inc("sfg_edges", g.number_of_edges())
+            inc("sfg_saved", 1)
         except Exception:
             pass
         return o_save_sfg(self, method_id, graph)
@@ -532,18 +533,17 @@ def install(dump_path=None, interval=2.0, limits=None, sysmon=True):
     def save_space(self, method_id, space):
         try:
             L = len(space)
-            c["p3_space_len"] = c.get("p3_space_len", 0) + L
-            if L > c.get("p3_space_max", 0):
-                c["p3_space_max"] = L
-            c["p3_space_saved"] = c.get("p3_space_saved", 0) + 1
+            inc("p3_space_len", L)
+            mx("p3_space_max", L)
+            inc("p3_space_saved", 1)
         except Exception:
             pass
         return o_save_space(self, method_id, space)
 
     def save_paths(self, paths):
         try:
-            c["call_paths"] = c.get("call_paths", 0) + len(paths)
-            c["call_paths_saved"] = c.get("call_paths_saved", 0) + 1
+            inc("call_paths", len(paths))
+            inc("call_paths_saved", 1)
             m = 0
             for p in paths:
                 if len(p) > m:
@@ -566,38 +566,38 @@ def install(dump_path=None, interval=2.0, limits=None, sysmon=True):
     o_rec = PF.reconstruct_define_use_path
 
     def propagate_taint(self, source):
-        c["taint_propagations"] = c.get("taint_propagations", 0) + 1
+        inc("taint_propagations", 1)
         return o_prop(self, source)
 
     def get_node_tag(self, u):            # called exactly once per worklist pop of propagate_taint
-        c["taint_pops"] = c.get("taint_pops", 0) + 1
+        inc("taint_pops", 1)
         return o_tag(self, u)
 
     def enqueue(self, worklist, in_worklist, node):
-        c["taint_enqueue_calls"] = c.get("taint_enqueue_calls", 0) + 1
+        inc("taint_enqueue_calls", 1)
         return o_enq(self, worklist, in_worklist, node)
 
     def find_sources(self):
         r = o_src(self)
-        c["taint_sources"] = c.get("taint_sources", 0) + len(r)
+        inc("taint_sources", len(r))
         return r
 
     def find_sinks(self):
         r = o_snk(self)
-        c["taint_sinks"] = c.get("taint_sinks", 0) + len(r)
+        inc("taint_sinks", len(r))
         return r
 
     def find_flows(self, sources, sinks):
         r = o_flows(self, sources, sinks)
-        c["taint_flows"] = c.get("taint_flows", 0) + len(r)
+        inc("taint_flows", len(r))
         return r
 
     def reconstruct(self, source, sink):
-        c["taint_path_reconstructions"] = c.get("taint_path_reconstructions", 0) + 1
+        inc("taint_path_reconstructions", 1)
         return o_rec(self, source, sink)
 
     def taint_run(self):
-        c["taint_runs"] = c.get("taint_runs", 0) + 1
+        inc("taint_runs", 1)
         return o_trun(self)
 
     PF.propagate_taint = propagate_taint
